@@ -1,6 +1,171 @@
-(* C01 — query exactness.  Headline theorems only. *)
-From Pyro Require Import Model.Base Model.Tree Model.Segment Model.Timeline Model.Storage Proofs.StorageProofs.
+(* C01 — query exactness.  Headline theorems only; lemmas in Proofs/StorageProofs.v; models in
+   Model/Storage.v (plain-map storage), Model/Segment.v, Model/Tree.v.
+
+   Reading of the statements.  [st_after pis] is the storage state after the ingests [pis] (Put with
+   retention off); C01_run ties it to histories of st_run with queries interleaved.  For a stack p,
+   [t_self_at p] is the count of that stack in a profile tree.  [pi_ab pi] is the upload's range rounded
+   to 10 s slots.  Hypotheses of exactness, exactly those of the property text:
+     exact_put K pi : non-empty range of at most 9 slots inside the epoch block K (valid_range), a tree
+                      as built by Insert (well formed, root ""), every stack count a multiple of the span;
+     key_consistent : uploads with the same canonical key text are the same series (Key.Normalized, C15);
+     no_average     : no upload declares aggregation type "average" (that case: the C01_average theorems).
+   The segment-level fact that a read of [a,b) assembles, from whatever buckets s_get picks, the per-slot
+   amounts of the writes times their slots inside [a,b) is [seg_read_exact] of Proofs/SegRead.v (builder
+   "seg"); C01_exact uses it directly, C01_exact_from keeps the reduction with that fact as a premise. *)
+From Pyro Require Import Model.Base Model.Tree Model.Segment Model.Timeline Model.Storage
+  Proofs.TreeProofs Proofs.SegStruct Proofs.StorageProofs.
+Local Open Scope Z_scope.
 
 Theorem C01_get_readonly : forall rt sel f u st, fst (st_step rt st (OpGet sel f u)) = st.
 Proof. exact st_get_readonly. Qed.
 Print Assumptions C01_get_readonly.
+
+(* S1: after any history of good uploads, for every series key kb and stack p, the trees stored under
+   the series' bucket keys hold exactly the contents of the exact bucket store of Model/Segment.v driven
+   by the series' own writes (per-slot amount count/span); the segment has the root of that history;
+   every stored tree is well formed with root "" *)
+Theorem C01_store_mirrors : forall p pis, Forall good_put pis ->
+  (forall k : sid, root_of k (st_after pis) = s_root (fst (run_writes (ws (sid_key k) p pis)))) /\
+  (forall kb lvl t, Z.of_N (t_self_at p (tree_get (kb, lvl, t) (st_trees (st_after pis)))) =
+                    snd (run_writes (ws kb p pis)) (lvl, t)) /\
+  TW (st_trees (st_after pis)).
+Proof. exact Inv_after. Qed.
+Print Assumptions C01_store_mirrors.
+
+(* S2: a query returns, per stack, the sum over the matching series of what the read assembles from the
+   series' exact store — for any ranges, spans and covers (ratios m/d included) *)
+Theorem C01_get_sum : forall p pis sel from until, Forall good_put pis ->
+  let st := st_after pis in
+  let ab := s_normalize_unix (from, until) in
+  let matching := st_matching sel st in
+  has_average matching = false ->
+  let S := sumZ (map (fun ks => series_read p pis (fst ab) (snd ab) (sid_key (fst ks))) matching) in
+  match st_get sel from until st with
+  | Some out => Z.of_N (t_self_at p (go_tree out)) = S
+  | None => S = 0
+  end.
+Proof. exact get_sum. Qed.
+Print Assumptions C01_get_sum.
+
+(* S4: grouping by the table's series = filtering the uploads by the selector *)
+Theorem C01_regroup : forall (g : put_input -> Z) pis sel, key_consistent pis ->
+  sumZ (map (fun ks => sumZ (map g (series_puts (sid_key (fst ks)) pis))) (st_matching sel (st_after pis))) =
+  sumZ (map g (filter (fun pi => sel_matches sel (pi_sid pi)) pis)).
+Proof. exact regroup_puts. Qed.
+Print Assumptions C01_regroup.
+
+(* C01_exact: for every selector, range and stack, the returned count is the sum over all uploads into
+   matching series of (count / span) * (number of the upload's slots inside the rounded range) —
+   whatever cover the read assembled; None only when that sum is 0. *)
+Theorem C01_exact : forall K pis sel from until p,
+  Forall (exact_put K) pis -> key_consistent pis -> no_average pis ->
+  let ab := s_normalize_unix (from, until) in
+  fst ab < snd ab ->
+  let S := sumZ (map (contrib p (fst ab) (snd ab)) (filter (fun pi => sel_matches sel (pi_sid pi)) pis)) in
+  match st_get sel from until (st_after pis) with
+  | Some out => Z.of_N (t_self_at p (go_tree out)) = S
+  | None => S = 0
+  end.
+Proof. exact get_exact_closed. Qed.
+Print Assumptions C01_exact.
+
+(* the same reduction with the segment-level statement as an explicit premise (storage level only) *)
+Theorem C01_exact_from : seg_read_exact_stmt -> forall K pis sel from until p,
+  Forall (exact_put K) pis -> key_consistent pis -> no_average pis ->
+  let ab := s_normalize_unix (from, until) in
+  valid_range K (fst ab) (snd ab) ->
+  let S := sumZ (map (contrib p (fst ab) (snd ab)) (filter (fun pi => sel_matches sel (pi_sid pi)) pis)) in
+  match st_get sel from until (st_after pis) with
+  | Some out => Z.of_N (t_self_at p (go_tree out)) = S
+  | None => S = 0
+  end.
+Proof. exact get_exact. Qed.
+Print Assumptions C01_exact_from.
+
+(* histories through st_run: a query after any history of ingests and queries answers st_get on the state
+   after the ingests *)
+Theorem C01_run : forall ops sel from until, Forall put_or_get ops ->
+  snd (st_run None (ops ++ [OpGet sel from until]) st_init) =
+  snd (st_run None ops st_init) ++ [OutGet (st_get sel from until (st_after (puts_of ops)))].
+Proof. exact st_run_get. Qed.
+Print Assumptions C01_run.
+
+(* metadata: when exactly one series matches, the metadata returned is that of its latest upload *)
+Theorem C01_meta : forall pis sel from until ks out,
+  st_matching sel (st_after pis) = [ks] -> st_get sel from until (st_after pis) = Some out ->
+  exists pi, last_put (sid_key (fst ks)) pis = Some pi /\ go_meta out = pi_meta pi.
+Proof. exact get_meta. Qed.
+Print Assumptions C01_meta.
+
+(* 'average' series.  Full statement of the property: the sum is divided by the number of contributing
+   uploads,
+     Z.of_N (t_self_at p (go_tree out)) = S / uploads_in sel a b pis.
+   It is false of the code (D12, known finding average-divisor-multislot): C01_average_refuted.
+   Proved instead (C01_average_partial): the divisor is the sum W of the write counters of the cover
+   buckets the read assembled (cover_writes); this is the number of contributing uploads only when each
+   upload meets exactly one cover bucket, e.g. when all uploads are single-slot. *)
+Theorem C01_average_refuted :
+  exists pis sel from until p out,
+    st_get sel from until (st_after pis) = Some out /\
+    let ab := s_normalize_unix (from, until) in
+    Z.of_N (t_self_at p (go_tree out)) <>
+    sumZ (map (contrib p (fst ab) (snd ab)) (filter (fun pi => sel_matches sel (pi_sid pi)) pis)) / uploads_in sel (fst ab) (snd ab) pis.
+Proof. exact average_refuted. Qed.
+Print Assumptions C01_average_refuted.
+
+Theorem C01_average_partial : forall p pis sel from until, Forall good_put pis ->
+  let st := st_after pis in
+  let ab := s_normalize_unix (from, until) in
+  let matching := st_matching sel st in
+  let S := sumZ (map (fun ks => series_read p pis (fst ab) (snd ab) (sid_key (fst ks))) matching) in
+  let W := cover_writes (fst ab) (snd ab) matching in
+  match st_get sel from until st with
+  | Some out => Z.of_N (t_self_at p (go_tree out)) =
+                if (0 <? W)%N && has_average matching then S / Z.of_N W else S
+  | None => S = 0
+  end.
+Proof. exact get_sum_avg. Qed.
+Print Assumptions C01_average_partial.
+
+(* ---- non-vacuity: two series of one application, three uploads (spans 1, 2 and 3 slots, one straddling
+   a 100 s boundary), a query by application over part of the history --------------------------------- *)
+Definition ex_s1 : sid := {| sid_key := [97;123;120;61;49;125]%N; sid_app := [97]%N; sid_tags := [([120], [49])]%N |}.
+Definition ex_s2 : sid := {| sid_key := [97;123;120;61;50;125]%N; sid_app := [97]%N; sid_tags := [([120], [50])]%N |}.
+Definition ex_sel : sid := {| sid_key := [97;123;125]%N; sid_app := [97]%N; sid_tags := [] |}.
+Definition ex_meta : meta := {| m_spy := [103]%N; m_rate := 100%N; m_units := [115]%N; m_agg := [115;117;109]%N |}.
+Definition ex_pis : list put_input :=
+  [ {| pi_sid := ex_s1; pi_from := 1600000090; pi_until := 1600000110;
+       pi_tree := t_insert [109;59;102]%N 6%N (t_insert [109;59;103]%N 2%N t_empty); pi_meta := ex_meta |};
+    {| pi_sid := ex_s2; pi_from := 1600000100; pi_until := 1600000130;
+       pi_tree := t_insert [109;59;102]%N 9%N t_empty; pi_meta := ex_meta |};
+    {| pi_sid := ex_s1; pi_from := 1600000120; pi_until := 1600000130;
+       pi_tree := t_insert [109;59;102]%N 5%N t_empty; pi_meta := ex_meta |} ].
+
+Example C01_exact_nonvacuous :
+  Forall (exact_put 63) ex_pis /\ key_consistent ex_pis /\ no_average ex_pis /\
+  fst (s_normalize_unix (1600000100, 1600000125)) < snd (s_normalize_unix (1600000100, 1600000125)) /\
+  (* m;f : 6/2*1 (second slot of the first upload) + 9/3*3 + 5/1*1 = 17 *)
+  sumZ (map (contrib [[109]%N; [102]%N] (fst (s_normalize_unix (1600000100, 1600000125))) (snd (s_normalize_unix (1600000100, 1600000125))))
+            (filter (fun pi => sel_matches ex_sel (pi_sid pi)) ex_pis)) = 17 /\
+  match st_get ex_sel 1600000100 1600000125 (st_after ex_pis) with
+  | Some out => t_self_at [[109]%N; [102]%N] (go_tree out) = 17%N /\ t_self_at [[109]%N; [103]%N] (go_tree out) = 1%N
+  | None => False
+  end.
+Proof.
+  split; [|split; [|split; [|split; [|split]]]].
+  - unfold ex_pis. repeat (apply Forall_cons; [apply exact_putb_ok; vm_compute; reflexivity|]). apply Forall_nil.
+  - intros pi pi' H1 H2. cbn in H1, H2.
+    destruct H1 as [<-|[<-|[<-|[]]]], H2 as [<-|[<-|[<-|[]]]]; cbn; intros E; try reflexivity; discriminate E.
+  - intros pi H. cbn in H. destruct H as [<-|[<-|[<-|[]]]]; cbn; discriminate.
+  - vm_compute. reflexivity.
+  - vm_compute. reflexivity.
+  - vm_compute. split; reflexivity.
+Qed.
+
+Example C01_average_nonvacuous :
+  good_put d12_put /\
+  match st_get d12_sid 1600000000 1600000020 (st_after [d12_put]), st_get d12_sid 1600000000 1600000100 (st_after [d12_put]) with
+  | Some o1, Some o2 => t_self_at [[97]%N; [98]%N] (go_tree o1) = 4%N /\ t_self_at [[97]%N; [98]%N] (go_tree o2) = 8%N
+  | _, _ => False
+  end.
+Proof. split; [apply good_putb_ok; vm_compute; reflexivity|]. vm_compute. split; reflexivity. Qed.
